@@ -117,6 +117,16 @@ type SolveOpts struct {
 	FirstMs  int
 	SecondMs int
 	DumpDir  string
+	// Deep, when set in the thorough tier, selects the obligations that get the thorough treatment (long budgets, every
+	// back end on every path); the others (the rest of the property's dependency cone) are decided as in the quick tier
+	Deep func(o *Obligation) bool
+}
+
+func (opts SolveOpts) forObligation(o *Obligation) SolveOpts {
+	if opts.Tier == "thorough" && opts.Deep != nil && !opts.Deep(o) {
+		opts.Tier, opts.FirstMs, opts.SecondMs = "quick", 3000, 15000
+	}
+	return opts
 }
 
 // solveAll discharges every obligation; cover obligations are expected NOT to be unsat.
@@ -141,6 +151,7 @@ func (x *Exec) solveAll(obls []*Obligation, opts SolveOpts) []*CheckResult {
 			defer wg.Done()
 			for j := range jobs {
 				o := obls[j.i]
+				opts := opts.forObligation(o)
 				q := x.buildQuery(prelude, o)
 				h := sha1.Sum([]byte(q))
 				if d := os.Getenv("GOVC_DUMPALL"); d != "" {
